@@ -91,6 +91,7 @@ type Sim struct {
 	anon     int
 	Budget   bool // step budget was hit
 	Deadlock string
+	Panic    string // first panic caught in a simulated goroutine
 	rnd      *Stream
 	mainG    *G
 }
@@ -201,6 +202,7 @@ func Wrap(f func()) func() {
 		}
 		id, prev := s.enter(g)
 		defer s.leave(id, prev)
+		defer s.capturePanic(g)
 		s.park(g, "start", "", nil)
 		f()
 	}
@@ -217,12 +219,18 @@ func WrapAny[F func() | func() error](f F) F {
 		return any(Wrap(fn)).(F)
 	case func() error:
 		g := s.child(s.curG(), "")
-		w := func() error {
+		w := func() (err error) {
 			if cur.Load() != s {
 				return fn()
 			}
 			id, prev := s.enter(g)
 			defer s.leave(id, prev)
+			defer func() {
+				if p := recover(); p != nil {
+					s.recordPanic(g, p)
+					err = fmt.Errorf("simrt: goroutine %s panicked: %v", g.Name, p)
+				}
+			}()
 			s.park(g, "start", "", nil)
 			return fn()
 		}
@@ -241,6 +249,9 @@ func (s *Sim) Go(name string, p *Proc, f func()) {
 	go func() {
 		id, prev := s.enter(g)
 		defer func() {
+			if p := recover(); p != nil {
+				s.recordPanic(g, p)
+			}
 			s.leave(id, prev)
 			s.mu.Lock()
 			s.active--
@@ -250,6 +261,22 @@ func (s *Sim) Go(name string, p *Proc, f func()) {
 		s.park(g, "start", "", nil)
 		f()
 	}()
+}
+
+func (s *Sim) capturePanic(g *G) {
+	if p := recover(); p != nil {
+		s.recordPanic(g, p)
+	}
+}
+
+func (s *Sim) recordPanic(g *G, p any) {
+	buf := make([]byte, 16<<10)
+	n := runtime.Stack(buf, false)
+	s.mu.Lock()
+	if s.Panic == "" {
+		s.Panic = fmt.Sprintf("goroutine %s: panic: %v\n%s", g.Name, p, buf[:n])
+	}
+	s.mu.Unlock()
 }
 
 func (s *Sim) notify() {
